@@ -1,4 +1,4 @@
-import Rustemo.Proofs.LexOk
+import Rustemo.Proofs.LayoutRTInsertPath
 import Rustemo.Props.ExampleLayout
 /-!
 # The hand-written recognizers of `Props/ExampleLayout.lean` stay inside their inputs
@@ -57,5 +57,108 @@ theorem Ws.recogOk : RecogOk Ws.env := by
           exact spaces_ok _ _ hs
         · simp at h'
       · simp at h'
+
+theorem Ins.recogA_ok (inp : List Nat) (k p l : Nat) (h : Ins.recogA inp k p = some l) :
+    p + l ≤ inp.length := by
+  unfold Ins.recogA at h
+  split at h
+  · split at h
+    · rename_i h2
+      injection h with h; subst h
+      have : p < inp.length := by
+        rcases Nat.lt_or_ge p inp.length with h | h
+        · exact h
+        · simp [List.getElem?_eq_none h] at h2
+      omega
+    · simp at h
+  · split at h
+    · split at h
+      · injection h with h; subst h; omega
+      · simp at h
+    · simp at h
+
+theorem Ins.recogOk1 : RecogOk Ins.env1 := fun k p l h => Ins.recogA_ok Example.input k p l h
+theorem Ins.recogOk2 : RecogOk Ins.env2 := fun k p l h => Ins.recogA_ok Ins.input2 k p l h
+
+/-- what the recognizers answer at the offsets of `Ins.R` -/
+theorem Ins.recogA_cases (inp : List Nat) (k p l : Nat) (h : Ins.recogA inp k p = some l) :
+    (k = 1 ∧ l = 1 ∧ inp[p]? = some 97) ∨ (k = 0 ∧ l = 0 ∧ p = inp.length) := by
+  unfold Ins.recogA at h
+  split at h
+  · rename_i hk
+    split at h
+    · rename_i h2; injection h with h; exact Or.inl ⟨hk, h.symm, h2⟩
+    · simp at h
+  · split at h
+    · rename_i hk
+      split at h
+      · rename_i h2; injection h with h; exact Or.inr ⟨hk, h.symm, h2⟩
+      · simp at h
+    · simp at h
+
+theorem Ins.aligned : Aligned Ins.env1 Ins.env2 Ins.R := by
+  refine ⟨Or.inl ⟨by decide, by decide⟩, ?_, ?_, ?_⟩
+  · intro p q hR k
+    show Ins.recogA Example.input k p = Ins.recogA Ins.input2 k q
+    rcases hR with ⟨rfl, rfl⟩ | ⟨rfl, rfl⟩ | ⟨rfl, rfl⟩ <;>
+    · unfold Ins.recogA
+      by_cases h1 : k = 1
+      · subst h1; decide
+      · by_cases h0 : k = 0
+        · subst h0; decide
+        · simp [h1, h0]
+  · intro p q hR k l h
+    have h' : Ins.recogA Example.input k p = some l := h
+    rcases Ins.recogA_cases _ _ _ _ h' with ⟨_, rfl, h2⟩ | ⟨_, rfl, h2⟩ <;>
+    rcases hR with ⟨rfl, rfl⟩ | ⟨rfl, rfl⟩ | ⟨rfl, rfl⟩
+    · exact Or.inr (Or.inl ⟨by decide, by decide⟩)
+    · exact Or.inr (Or.inr ⟨by decide, by decide⟩)
+    · exact absurd h2 (by decide)
+    · exact absurd h2 (by decide)
+    · exact absurd h2 (by decide)
+    · exact Or.inr (Or.inr ⟨by decide, by decide⟩)
+  · intro p q hR k l h
+    have h' : Ins.recogA Example.input k p = some l := h
+    rcases Ins.recogA_cases _ _ _ _ h' with ⟨_, rfl, h2⟩ | ⟨_, rfl, h2⟩ <;>
+    rcases hR with ⟨rfl, rfl⟩ | ⟨rfl, rfl⟩ | ⟨rfl, rfl⟩ <;>
+    first
+      | decide
+      | exact absurd h2 (by decide)
+
+/-- token history of an accepted parse -/
+def histOf (x : Ctx × Outcome ParseResult) : Option (List Tok) :=
+  match x with
+  | (_, .ok r) => some r.hist
+  | _ => none
+
+theorem histOf_spec (x : Ctx × Outcome ParseResult) (l : List Tok) (h : histOf x = some l) :
+    ∃ ctx r, x = (ctx, .ok r) ∧ r.hist = l := by
+  unfold histOf at h
+  split at h
+  · rename_i ctx r
+    injection h with h
+    exact ⟨ctx, r, rfl, h⟩
+  · simp at h
+
+/-- the parse of "a a" shifts `a` at 0 and `a` at 2, and "a  a " is aligned with it along them -/
+theorem Ins.pathAligned : ∃ ctx1 r1, parse Ins.env1 false 100 = (ctx1, .ok r1) ∧
+    PathAligned Ins.env1 Ins.env2 r1.hist.reverse (postSkip Ins.env1 0) (postSkip Ins.env2 0) := by
+  have hh : histOf (parse Ins.env1 false 100) =
+      some [⟨1, (2, 1), ⟨⟨2, 1, 2⟩, ⟨3, 1, 3⟩⟩⟩, ⟨1, (0, 1), ⟨⟨0, 1, 0⟩, ⟨1, 1, 1⟩⟩⟩] := by decide +kernel
+  obtain ⟨ctx1, r1, hp, hr⟩ := histOf_spec _ _ hh
+  refine ⟨ctx1, r1, hp, ?_⟩
+  rw [hr]
+  have e0 : postSkip Ins.env1 0 = 0 := by decide
+  have e0' : postSkip Ins.env2 0 = 0 := by decide
+  have e1 : postSkip Ins.env1 (0 + 1) = 2 := by decide
+  have e1' : postSkip Ins.env2 (0 + 1) = 3 := by decide
+  have e2 : postSkip Ins.env1 (2 + 1) = 3 := by decide
+  have e2' : postSkip Ins.env2 (3 + 1) = 5 := by decide
+  rw [e0, e0']
+  simp only [List.reverse_cons, List.reverse_nil, List.nil_append, List.cons_append, PathAligned]
+  rw [e1, e1', e2, e2']
+  exact ⟨trivial, Ins.aligned.recog 0 0 (Or.inl ⟨rfl, rfl⟩), by decide, rfl,
+    Ins.aligned.recog 2 3 (Or.inr (Or.inl ⟨rfl, rfl⟩)), by decide,
+    Ins.aligned.recog 3 5 (Or.inr (Or.inr ⟨rfl, rfl⟩))⟩
 
 end Rustemo
